@@ -199,6 +199,28 @@ func wrapIfContextError(err error) error {
 	return err
 }
 
+// wrapIfContextDone is like wrapIfContextError, but it also applies
+// CodeCanceled or CodeDeadlineExceeded to any other uncoded error if the
+// supplied context is already done: once the context is canceled or expired,
+// transport errors (closed connections, aborted streams) are just symptoms.
+func wrapIfContextDone(ctx context.Context, err error) error {
+	if err == nil {
+		return nil
+	}
+	err = wrapIfContextError(err)
+	if _, ok := asError(err); ok {
+		return err
+	}
+	ctxErr := ctx.Err()
+	if errors.Is(ctxErr, context.Canceled) {
+		return NewError(CodeCanceled, err)
+	}
+	if errors.Is(ctxErr, context.DeadlineExceeded) {
+		return NewError(CodeDeadlineExceeded, err)
+	}
+	return err
+}
+
 // wrapIfLikelyWithGRPCNotUsedError adds a wrapping error that has a message
 // telling the caller that they likely need to use h2c but are using a raw http.Client{}.
 //
